@@ -233,7 +233,7 @@ func hsDrawPlan(rt *rapid.T, focus string) *hsPlan {
 	if focus == "C16" {
 		nb := vs.Range(c, 1, 6)
 		for i := 0; i < nb; i++ {
-			p.byz = append(p.byz, hsByzOp{kind: vs.Pick(c, "flip", "truncate", "insert", "delete", "dup", "garbage", "lenedit", "typeedit", "flood-ping", "flood-settings", "flood-rst", "flood-wu0", "flood-cont", "flood-emptydata", "nopreface", "rawframes", "rawframes"),
+			p.byz = append(p.byz, hsByzOp{kind: vs.Pick(c, "flip", "truncate", "insert", "delete", "dup", "garbage", "lenedit", "typeedit", "flood-ping", "flood-settings", "flood-rst", "flood-wu0", "flood-cont", "flood-emptydata", "nopreface", "rawframes", "rawframes", "unsolicited-ack"),
 				n: vs.Range(c, 1, 300), a: c.Intn(1 << 16), b: c.Intn(1 << 16)})
 		}
 		p.cut = vs.Pct(c, 20)
